@@ -330,6 +330,7 @@ func checkC10(c *Ctx) {
 	// "carrying d and the scope's name and tags": the timer (plain and cached) is created under the name
 	// and tags every other metric of the scope is delivered with - shared with C06 O1
 	c.shared(checkC06, map[string]string{"O1 sanitize-before-sink": "O7 scope-name-and-tags"})
+	c.checkNoSwallowedPanic("O8 no-swallowed-panic")
 
 }
 
@@ -668,4 +669,29 @@ func (c *Ctx) checkTimerSinkAppendOnly(rule string) {
 		c.ok(rule, "tally.timerValues.values", fVals.Pos(), fmt.Sprintf("every assignment (%d) appends to the list or starts from fresh storage", n))
 	}
 	c.floor(rule, n, 1)
+}
+
+// checkNoSwallowedPanic (O8): nothing in the core package recovers from a panic. A reporter that panics
+// while a metric is being created must not leave a handle behind that was built "without" the reporter:
+// such a timer is registered under its name and silently delivers nothing for every later Record.
+// (Expected count of recover() calls: zero; the self-test keeps a mutant that adds one.)
+func (c *Ctx) checkNoSwallowedPanic(rule string) {
+	n, nBad := 0, 0
+	for _, fn := range c.funcsOfPkg("") {
+		fn := fn
+		n++
+		instrsOf(fn, func(in ssa.Instruction) {
+			call, ok := in.(ssa.CallInstruction)
+			if !ok {
+				return
+			}
+			if b, isB := call.Common().Value.(*ssa.Builtin); isB && b.Name() == "recover" {
+				nBad++
+				c.bad(rule, c.fnKey(fn), in.Pos(), "the library recovers from a panic: a metric whose creation was interrupted by a panicking reporter is handed out (and stays registered) in a state in which it delivers nothing", c.describe(in))
+			}
+		})
+	}
+	if nBad == 0 {
+		c.ok(rule, "tally", token.NoPos, fmt.Sprintf("no recover() in %d functions of the core package", n))
+	}
 }
